@@ -11,6 +11,7 @@ import (
 	"bytes"
 	"encoding/hex"
 	"fmt"
+	"math"
 
 	"github.com/ElrondNetwork/elrond-go/marshal"
 	kit "github.com/ElrondNetwork/elrond-go/verifkit"
@@ -299,11 +300,22 @@ func verifC18UnknownNum(rt *rapid.T, s *verifC18Schema) int {
 	}
 }
 
-func verifC18UnknownNode(rt *rapid.T, s *verifC18Schema, baseLen int) (*verifC18Node, string) {
+func verifC18UnknownNode(rt *rapid.T, s *verifC18Schema, baseLen int, allow int) (*verifC18Node, string) {
 	num := verifC18UnknownNum(rt, s)
 	n := &verifC18Node{Num: num}
 	var size int
-	switch rapid.IntRange(0, 9).Draw(rt, "unkSize") {
+	sizeKind := rapid.IntRange(0, 9).Draw(rt, "unkSize")
+	if allow >= 0 && rapid.IntRange(0, 3).Draw(rt, "aroundEffectiveDelta") == 0 {
+		sizeKind = 10
+	}
+	switch sizeKind {
+	case 10:
+		// around / beyond the padding that the configured (effective) size delta allows
+		if rapid.Bool().Draw(rt, "farBeyond") {
+			size = allow + rapid.IntRange(8, 8+2*baseLen).Draw(rt, "beyondEffectiveDelta")
+		} else {
+			size = allow + rapid.IntRange(-6, 6).Draw(rt, "nearEffectiveDelta")
+		}
 	case 0, 1, 2, 3, 4:
 		size = rapid.IntRange(0, 3).Draw(rt, "small")
 	case 5, 6:
@@ -349,7 +361,7 @@ func verifC18UnknownNode(rt *rapid.T, s *verifC18Schema, baseLen int) (*verifC18
 
 // verifC18ApplyPreserving applies one content-preserving mutation of the class in place on top.
 // It returns a description, or "" when the class is not applicable to this value.
-func verifC18ApplyPreserving(rt *rapid.T, class string, s *verifC18Schema, top *[]*verifC18Node, baseLen int) string {
+func verifC18ApplyPreserving(rt *rapid.T, class string, s *verifC18Schema, top *[]*verifC18Node, baseLen int, allow int) string {
 	switch class {
 	case "reorder":
 		l, ok := verifC18PickLevel(rt, s, top, func(l verifC18Level) bool {
@@ -450,7 +462,7 @@ func verifC18ApplyPreserving(rt *rapid.T, class string, s *verifC18Schema, top *
 		}
 		desc := ""
 		for i := 0; i < k; i++ {
-			n, d := verifC18UnknownNode(rt, l.schema, baseLen)
+			n, d := verifC18UnknownNode(rt, l.schema, baseLen, allow)
 			pos := len(*l.nodes)
 			if rapid.IntRange(0, 2).Draw(rt, "unkAppend") != 0 {
 				pos = rapid.IntRange(0, len(*l.nodes)).Draw(rt, "unkPos")
@@ -814,31 +826,84 @@ type verifC18Target struct {
 	Intercept func(b []byte, m marshal.Marshalizer) verifC18Outcome
 }
 
+// verifC18Mode is the marshalizer configuration of a case. The interceptors containers factories
+// (process/factory/interceptorscontainer/{shard,meta}InterceptorsContainerFactory.go: "if args.SizeCheckDelta > 0 {
+// NewSizeCheckUnmarshalizer(args.CoreComponents.InternalMarshalizer(), args.SizeCheckDelta); SetInternalMarshalizer }")
+// and the hardfork factory (update/factory/fullSyncInterceptors.go, same code, called from exportHandlerFactory.go with
+// SizeCheckDelta: math.MaxUint32) all decorate the SHARED core-components marshalizer and set it back, so the
+// marshalizer an interceptor decodes with can carry a stack of size checks. Every decorator of the stack applies,
+// hence the bound the configuration promises is the strictest delta of the stack.
 type verifC18Mode struct {
 	name  string
-	delta int // -1 = unwrapped marshalizer (SizeCheckDelta = 0 in the configuration)
+	delta int      // effective (strictest) delta in percent; -1 = unwrapped marshalizer (SizeCheckDelta = 0)
+	stack []uint32 // deltas of the decorators, innermost first
+}
+
+func verifC18LaxDelta(rt *rapid.T, label string) uint32 {
+	switch rapid.IntRange(0, 2).Draw(rt, label+"Kind") {
+	case 0:
+		return math.MaxUint32 // the hardfork full-sync interceptors
+	case 1:
+		return 100 // integration tests
+	default:
+		return uint32(rapid.IntRange(60, 5000).Draw(rt, label))
+	}
+}
+
+func verifC18StrictDelta(rt *rapid.T, label string) uint32 {
+	if rapid.Bool().Draw(rt, label+"Default") {
+		return 10 // cmd/node/config/config.toml
+	}
+	return uint32(rapid.IntRange(1, 50).Draw(rt, label))
+}
+
+func verifC18StackMode(name string, stack []uint32) verifC18Mode {
+	eff := stack[0]
+	for _, d := range stack {
+		if d < eff {
+			eff = d
+		}
+	}
+	return verifC18Mode{name: name, delta: int(eff), stack: stack}
 }
 
 func verifC18DrawMode(rt *rapid.T) verifC18Mode {
-	switch rapid.IntRange(0, 6).Draw(rt, "mode") {
+	switch rapid.IntRange(0, 10).Draw(rt, "mode") {
 	case 0, 1:
-		return verifC18Mode{"nocheck", -1}
+		return verifC18Mode{name: "nocheck", delta: -1}
 	case 2, 3, 4:
-		return verifC18Mode{"delta10", 10}
+		return verifC18StackMode("delta10", []uint32{10})
 	case 5:
-		return verifC18Mode{"delta100", 100}
+		return verifC18StackMode("delta100", []uint32{100})
+	case 6:
+		return verifC18StackMode("deltaN", []uint32{uint32(rapid.IntRange(1, 300).Draw(rt, "delta"))})
+	case 7, 8:
+		// a laxer decorator is already installed on the shared marshalizer, the node's own delta is added on top
+		return verifC18StackMode("stackLaxThenStrict", []uint32{verifC18LaxDelta(rt, "innerLax"), verifC18StrictDelta(rt, "outerStrict")})
+	case 9:
+		return verifC18StackMode("stackStrictThenLax", []uint32{verifC18StrictDelta(rt, "innerStrict"), verifC18LaxDelta(rt, "outerLax")})
 	default:
-		d := rapid.IntRange(1, 300).Draw(rt, "delta")
-		return verifC18Mode{"deltaN", d}
+		// three factories decorating the same marshalizer, any order
+		st := []uint32{verifC18LaxDelta(rt, "lax3"), verifC18StrictDelta(rt, "strict3"), uint32(rapid.IntRange(1, 300).Draw(rt, "any3"))}
+		perm := rapid.Permutation(verifC18Iota(3)).Draw(rt, "stackOrder")
+		return verifC18StackMode("stack3", []uint32{st[perm[0]], st[perm[1]], st[perm[2]]})
 	}
 }
 
 func (m verifC18Mode) marshalizer() marshal.Marshalizer {
-	g := &marshal.GogoProtoMarshalizer{}
-	if m.delta < 0 {
-		return g
+	var mm marshal.Marshalizer = &marshal.GogoProtoMarshalizer{}
+	for _, d := range m.stack {
+		mm = marshal.NewSizeCheckUnmarshalizer(mm, d)
 	}
-	return marshal.NewSizeCheckUnmarshalizer(g, uint32(m.delta))
+	return mm
+}
+
+// allowance is the number of extra bytes the configuration tolerates on an object of n canonical bytes (-1: no check)
+func (m verifC18Mode) allowance(n int) int {
+	if m.delta < 0 {
+		return -1
+	}
+	return n * m.delta / 100
 }
 
 func verifC18Hex(b []byte) string {
@@ -897,13 +962,13 @@ func verifC18RunCase(rt *rapid.T, c *kit.Case, tg *verifC18Target, b0 []byte, au
 		k := rapid.IntRange(2, 3).Draw(rt, "numCombined")
 		for i := 0; i < k; i++ {
 			cl := rapid.SampledFrom(verifC18Preserving).Draw(rt, "combinedClass")
-			if d := verifC18ApplyPreserving(rt, cl, tg.Schema, &top, len(b0)); d != "" {
+			if d := verifC18ApplyPreserving(rt, cl, tg.Schema, &top, len(b0), mode.allowance(len(b0))); d != "" {
 				desc += cl + ": " + d + " | "
 			}
 		}
 		b1 = verifC18Encode(top)
 	default:
-		desc = verifC18ApplyPreserving(rt, class, tg.Schema, &top, len(b0))
+		desc = verifC18ApplyPreserving(rt, class, tg.Schema, &top, len(b0), mode.allowance(len(b0)))
 		b1 = verifC18Encode(top)
 	}
 	label := tg.Name + ":" + class
@@ -966,6 +1031,6 @@ func verifC18RunCase(rt *rapid.T, c *kit.Case, tg *verifC18Target, b0 []byte, au
 			key = "C18:" + tg.Name + ":oversize-accepted"
 		}
 	}
-	c.Violation(key, "%s (marshalizer %s, delta %d): two accepted encodings of the same content have different hashes %x / %x\n canonical b0 (%d bytes)=%s\n mutated   b1 (%d bytes)=%s\n mutation: %s",
-		tg.Name, mode.name, mode.delta, o0.Hash, o1.Hash, len(b0), verifC18Hex(b0), len(b1), verifC18Hex(b1), desc)
+	c.Violation(key, "%s (marshalizer %s, effective delta %d): two accepted encodings of the same content have different hashes %x / %x\n canonical b0 (%d bytes)=%s\n mutated   b1 (%d bytes)=%s\n mutation: %s",
+		tg.Name, fmt.Sprintf("%s stack %v", mode.name, mode.stack), mode.delta, o0.Hash, o1.Hash, len(b0), verifC18Hex(b0), len(b1), verifC18Hex(b1), desc)
 }
